@@ -35,7 +35,8 @@ THEOREMS = [
     # of every reply, every view padded in every state, reads only replace a stored tuple by its view, and what a
     # getter replies does not depend on which getters were read before it, on which systems, in which order
     'C06.observer_closed_form', 'C06.observers_padded', 'C06.observer_keeps_views', 'C06.read_order_irrelevant',
-    'C06.observers_padded_any_order', 'C06.massesGet_stores', 'C06.massesSet_spec',
+    'C06.observers_padded_any_order', 'C06.massesGet_stores', 'C06.massesSet_spec', 'C06.inv_ntOf_ok',
+    'C06.reachable_observers_padded',
     # refinement to the record-per-atom specification: slicing / copying
     'C06.refines_getItem', 'C06.refines_deepcopy', 'C06.deepcopy_rows', 'C06.getItem_error_unchanged',
     'C06.GetItemRes.operand_unchanged', 'C06.GetItemRes.copy_fresh', 'C06.deepcopy_fresh',
@@ -2058,7 +2059,11 @@ MANIFEST = {
             'state monad where the state survives exceptions. Proved by induction over ALL operation histories '
             '(inv_step / inv_reachable): every buffer is rectangular and homogeneously typed, every property of every '
             'object exposes exactly natoms distinct existing rows, names are distinct, atype cells are >= 1, atype and '
-            'pos exist, Systems point at live Atoms; symbols/masses are at least natypes long once read. Refinement to '
+            'pos exist, Systems point at live Atoms; symbols/masses are at least natypes long once read, and - over the '
+            'lazily padded hidden tuples - every observer (symbols, masses, natypes, atypes, composition) has a closed '
+            'form in the stored tuples and atoms.natypes, is padded in every state, only replaces a stored tuple by its '
+            'view, and replies the same whatever was read before it, on any system, in any order (read_order_irrelevant, '
+            'reachable_observers_padded). Refinement to '
             'the record-per-atom view, per operation family: atoms[index] and deepcopy return, for every property, the '
             'operand\'s rows at the SAME positions (row alignment), reads return the selected rows, an indexed write is '
             'the record update with later duplicates winning and nothing else changing (also atoms[index] = other, '
@@ -2066,8 +2071,10 @@ MANIFEST = {
             'followed by the cast donor rows with zero fill on either side; copying operations (list/bool index, deepcopy, prop(index), extend, constructor) '
             'return objects in fresh buffers and leave every pre-existing object and buffer literally unchanged; one '
             'lemma per refusal. Tied to the code by a differential run over random operation histories comparing '
-            'replies, full state and the complete memory-sharing relation after every operation; the clauses are '
-            're-evaluated on the real objects next to an independent record-per-atom oracle.',
+            'replies, full state (stored tuples, read without any getter) and the complete memory-sharing relation after '
+            'every operation, the observation order being part of the generated history (every getter is an operation of '
+            'its own, queued in random order after mutations); the clauses are re-evaluated on the real objects next to an '
+            'independent record-per-atom oracle that reads a getter only where the history does.',
     'note': 'Trusted: Lean kernel + propext/Classical.choice/Quot.sound; the hand-written model (tied by the '
             'correspondence only); numpy. Partial: closed forms of the values after extend, atoms[index] = other, '
             'prop_atype and new-key assignment are checked by correspondence and oracle on every run, not proved '
